@@ -170,6 +170,16 @@ ExpExactU(U,NP,id,sg,mu) ==
       W == DSand(U, [q \in 1..n |-> QScale(2^(MBound + sg*mu*CM(id)[q]), QZeta(sg*mu*CK(id)[q]))], 2^MBound, n)
   IN IF DecF(id) \in {1,2} THEN W
      ELSE DMul(W, [den |-> Fact5, a |-> Mat2(n, LAMBDA r,c : QOne(PolySum(NP,r,c,sg,mu,n)))], n)
+\* the property's quantifier: 1-norm up to ~1e3 for normal matrices with bounded real spectrum, up to ~50 for the
+\* non-normal (nilpotent, shifted nilpotent) families:  2^sn * |N|_1 <= NilNormMax
+NilNormMax == 64
+RECURSIVE ColAbsSum(_,_,_)
+ColAbsSum(N,c,r) == IF r = 0 THEN 0 ELSE ColAbsSum(N,c,r-1) + Abs(N[r][c])
+OneNormI(N,n) == LET RECURSIVE Mx(_)
+                     Mx(c) == IF c = 0 THEN 0 ELSE LET a == Mx(c-1)  b == ColAbsSum(N,c,n) IN IF a > b THEN a ELSE b
+                 IN Mx(n)
+InDomain(id) == IF DecF(id) \in {1,2} \/ CSn(id) <= 0 THEN TRUE      \* (IF, not \/ : TLC splits a disjunction in an action)
+                ELSE Bind1(CNil(id), LAMBDA N : OneNormI(N,CN(id)) * 2^CSn(id) <= NilNormMax)
 OnLattice(id) == CSa(id) = 0 /\ CSn(id) = 0
 AntiHerm(id) == DecF(id) \in {1,2} /\ \A r \in 1..CN(id) : CM(id)[r] = 0
 IsDiagCase(id) == DecF(id) = 1 \/ (DecF(id) \in {3,4} /\ IZero(CNil(id), CN(id)))
@@ -203,6 +213,7 @@ Init == scratch = Fresh /\ hist = <<>> /\ cur = 0 /\ res = <<>> /\ grp \in Group
 
 Exp(id) == /\ Len(hist) < MaxLen
            /\ InGroup(id, grp)
+           /\ InDomain(id)
            /\ hist' = Append(hist, <<id, CN(id)>>)
            /\ scratch' = Upd(scratch, CN(id), Depth(id))
            /\ cur' = id
